@@ -236,6 +236,17 @@ func (w *World) doChainEv(ev *ChainEv) {
 		c.Reorg(ev.N, true)
 	case "reorg-hold":
 		c.ReorgHold(ev.N)
+	case "reorg-deep-ifdown":
+		// A reorganisation deeper than the confirmation requirement. The model assumption
+		// "N confirmations are final" is kept for running nodes; what is explored here is
+		// whether a node that was down during such an event looks at the chain again when
+		// it comes back, or trusts what it saw before it stopped.
+		if n := w.Nodes[ev.Node]; n.Up || n.db != nil {
+			w.Probe("chain:deep-reorg-skipped-node-up")
+			return
+		}
+		w.Probe("chain:deep-reorg-while-down")
+		c.ReorgHold(ev.N)
 	case "stall":
 		c.SetStalled(ev.N != 0)
 	}
